@@ -215,12 +215,31 @@ def run_mutant(repo, m):
     shutil.rmtree(d, ignore_errors=True)
 
 
+def run_roundtrip(repo, pid):
+  """Global neutral variant: every module re-printed by ast.unparse (all
+  formatting, comments and parenthesisation changed, nothing else)."""
+  import ast
+  d = _scratch(repo)
+  try:
+    pkg = os.path.join(d, PKG_DIR)
+    for fn in os.listdir(pkg):
+      if fn.endswith('.py'):
+        path = os.path.join(pkg, fn)
+        with open(path) as f:
+          src = f.read()
+        with open(path, 'w') as f:
+          f.write(ast.unparse(ast.parse(src)) + '\n')
+    p = subprocess.run([PY, os.path.join(HERE, 'check.py'), pid, '--repo', d,
+                        '--no-evidence'], stdout=subprocess.PIPE,
+                       stderr=subprocess.STDOUT, text=True)
+    return p.returncode, p.stdout
+  finally:
+    shutil.rmtree(d, ignore_errors=True)
+
+
 def audit(pid, repo, verbose=True):
   from concurrent.futures import ThreadPoolExecutor
   ms = [m for m in MUTANTS if m[0] == pid]
-  if not ms:
-    print('AUDIT %s: no mutants registered' % pid)
-    return 0
   with ThreadPoolExecutor(max_workers=16) as ex:
     results = list(ex.map(lambda m: run_mutant(repo, m), ms))
   bad = 0
@@ -245,9 +264,18 @@ def audit(pid, repo, verbose=True):
         bad += 1
         print('AUDIT-MISS %s mutant not reported by %s: %s [%s]' % (
             pid, m[4], m[5], status))
+  rc, out = run_roundtrip(repo, pid)
+  stats['neutral'] += 1
+  if rc == 0:
+    stats['neutral_silent'] += 1
+  else:
+    bad += 1
+    print('AUDIT-MISS %s the ast.unparse round trip of the sources raised an '
+          'alarm (rc=%d)' % (pid, rc))
   print('AUDIT %s mutants_applied=%d detected=%d neutral_variants=%d '
         'silent=%d' % (pid, stats['applied'], stats['detected'],
                        stats['neutral'], stats['neutral_silent']))
+  audit.last_stats = stats
   return bad
 
 
